@@ -766,8 +766,32 @@ def rule_dec_exact(ctx: RuleContext, p: Program, rid: str) -> None:
                 ctx.check(bad is None, rid, f'{_short(m)}:{fn.qualname}', f'Number.from_value({norm(arg)[:40]})',
                           f'the number token is built from {bad}, which rounds to the precision of the decimal context: from_value(v).value != v for '
                           f'a v with more than 28 significant digits (use copy_abs / copy_negate)', f'{m.relpath}:{c.lineno}', note=norm(arg)[:50])
-    if n < 2:
-        raise AnalysisError(f'DEC-EXACT: only {n} sites found (Number._parse_value and _add_expr_from_value confirmed)')
+    # sign readers: a sign in front of a number is not an arithmetic operation on it -- what `posting.number = Decimal('-1.0...01')` wrote must
+    # read back digit for digit, as the same number without the sign does
+    for mname in ('models.number_unary_expr', 'models.number_paren_expr'):
+        try:
+            m = p.module(mname)
+        except AnalysisError:
+            continue
+        for fn in p.functions_in(m):
+            if fn.prop != 'value' or fn.kind != 'getter':
+                continue
+            for r in [x for x in walk_no_nested(fn.node) if isinstance(x, ast.Return) and x.value is not None]:
+                n += 1
+                v = r.value
+                bad = None
+                if isinstance(v, ast.UnaryOp) and isinstance(v.op, (ast.USub, ast.UAdd)):
+                    bad = f'unary {"-" if isinstance(v.op, ast.USub) else "+"} on a Decimal'
+                elif isinstance(v, ast.Call) and norm(v.func) == 'abs':
+                    bad = 'abs() of a Decimal'
+                elif isinstance(v, ast.BinOp) and isinstance(v.op, (ast.Sub, ast.Mult)) and any(isinstance(x, ast.Constant) for x in (v.left, v.right)):
+                    bad = f'arithmetic with a constant (`{norm(v)[:40]}`)'
+                ctx.check(bad is None, rid, f'{_short(m)}:{fn.qualname}', norm(v)[:60],
+                          f'the value of a signed number is computed with {bad}, which rounds to the precision of the decimal context: a number written '
+                          f'as -1.000000000000000000000000000001 (posting.number = Decimal(...) writes every digit) reads back rounded, although the same '
+                          f'number without the sign reads back exactly (use copy_negate())', f'{m.relpath}:{r.lineno}', note=norm(v)[:60])
+    if n < 4:
+        raise AnalysisError(f'DEC-EXACT: only {n} sites found (Number._parse_value, _add_expr_from_value and the unary value getter confirmed)')
 
 
 # ====================================================================== ID-CMP (C05 / C10 / C14 / C19 / C20, added in round 5)
@@ -1280,7 +1304,22 @@ def rule_claim_sem(ctx: RuleContext, p: Program, rid: str, max_len: int = 3) -> 
                         shown = ' '.join({'P': 'placeholder', 'N': 'newline', 'c': 'comment', 'C': 'claimed-comment', 'd': 'comment(less indented)', 'O': 'other'}[c] for c in seq) or '(nothing)'
                         where_ = f'{"before" if backwards else "after"} a{"n indent" if edge_kind == "Indent" else " plain"} edge token, neighbours [{shown}], ignore_if_already_claimed={ignore}'
                         try:
-                            got = it.call_function(fn, [None, store, start], {'backwards': backwards, 'ignore_if_already_claimed': ignore})
+                            extra_kw: dict = {}
+                            a_ = fn.node.args
+                            for q_ in [*a_.args[3:], *a_.kwonlyargs]:
+                                if q_.arg in ('backwards', 'ignore_if_already_claimed'):
+                                    continue
+                                ann_ = norm(q_.annotation) if q_.annotation is not None else ''
+                                # a further argument the call sites supply: a stand-in of its annotated kind
+                                if 'RawTokenModel' in ann_ and any(k in ann_ for k in ('tuple', 'Sequence', 'list', 'Iterable')):
+                                    extra_kw[q_.arg] = (possem.Obj('Newline', {'raw_text': '\n', 'claimed': False}, 'sep:new separator token'),)
+                                elif ann_.startswith('Optional['):
+                                    extra_kw[q_.arg] = None
+                                elif ann_ == 'bool':
+                                    extra_kw[q_.arg] = False
+                                elif ann_ == 'str':
+                                    extra_kw[q_.arg] = '\n'
+                            got = it.call_function(fn, [None, store, start], {'backwards': backwards, 'ignore_if_already_claimed': ignore, **extra_kw})
                             raised = False
                         except possem.Raised:
                             got, raised = None, True
